@@ -1,5 +1,8 @@
 use serde::{Deserialize, Serialize};
+#[cfg(not(feature = "verif"))]
 use std::sync::atomic::{AtomicU64, Ordering};
+#[cfg(feature = "verif")]
+use crate::verif::atomic::{AtomicU64, Ordering};
 use uuid::Uuid;
 
 /// # UuidGenerator
